@@ -77,6 +77,98 @@ def future_fields(ck) -> Dict[str, str]:
     return out
 
 
+def _drain_forms(fi, path: str, lists: Set[str], settled_names: Set[str]):
+    """How the futures of container ``path`` reach the settle loop.
+    Returns (found, [(ast node, reason)] for drains that can drop an element, [cfg nodes that collect])."""
+    cfg = fi.cfg
+    bad = []
+    nodes = []
+    found = False
+
+    def collects(n, var: Optional[str]) -> bool:
+        if n.kind != "stmt":
+            return False
+        for c in q.calls(n.ast):
+            if q.receiver(c) in lists and q.call_attr(c) in ("append", "extend") and (var is None or any(isinstance(x, ast.Name) and x.id == var for a in c.args for x in ast.walk(a))):
+                return True
+            if var is not None and ((isinstance(c.func, ast.Attribute) and c.func.attr in ("set_exception", "set_result") and q.dotted(c.func.value) == var) or (q.call_attr(c) in ("future_set_exception_unless_cancelled", "future_set_result_unless_cancelled") and c.args and q.dotted(c.args[0]) == var)):
+                return True
+        if isinstance(n.ast, ast.AugAssign) and q.dotted(n.ast.target) in lists and (var is None or any(isinstance(x, ast.Name) and x.id == var for x in ast.walk(n.ast.value))):
+            return True
+        return False
+
+    # (a) comprehension / generator over the container
+    for n in cfg.stmt_nodes(lambda n: n.kind == "stmt"):
+        for comp in [x for x in q.walk_local(n.ast) if isinstance(x, (ast.ListComp, ast.GeneratorExp, ast.SetComp))]:
+            gens = [g for g in comp.generators if q.dotted(g.iter) == path or (isinstance(g.iter, ast.Call) and q.dotted(g.iter.func) in ("list", "tuple") and g.iter.args and q.dotted(g.iter.args[0]) == path)]
+            if not gens or not collects(n, None):
+                continue
+            found = True
+            nodes.append(n)
+            if any(g.ifs for g in comp.generators):
+                bad.append((n.ast, "the comprehension filters the queue (elements failing the condition are dropped unresolved)"))
+        for c in q.calls(n.ast):
+            if q.receiver(c) in lists and q.call_attr(c) == "extend" and c.args and q.dotted(c.args[0]) == path:
+                found = True
+                nodes.append(n)
+    # (b) explicit loops
+    loops = []
+    for n in cfg.nodes:
+        if n.id not in cfg.reachable():
+            continue
+        if n.kind == "for" and (q.dotted(n.ast.iter) == path or (isinstance(n.ast.iter, ast.Call) and n.ast.iter.args and q.dotted(n.ast.iter.args[0]) == path)):
+            loops.append(("for", n))
+        if n.kind == "join" and n.label == " while" and isinstance(n.ast, ast.While) and path in {q.dotted(x) for x in ast.walk(n.ast.test)}:
+            loops.append(("while", n))
+    for kind, head in loops:
+        lp = head.ast
+        if kind == "for":
+            tv = [x.id for x in ast.walk(lp.target) if isinstance(x, ast.Name)]
+            binders = {head.id}
+        else:
+            tv = []
+            binders = set()
+            for m in cfg.stmt_nodes(lambda m: m.kind == "stmt" and isinstance(m.ast, ast.Assign) and any(m.ast is x for x in ast.walk(lp))):
+                v = m.ast.value
+                if (isinstance(v, ast.Call) and q.receiver(v) == path and q.call_attr(v) in ("popleft", "pop")) or (isinstance(v, ast.Subscript) and q.dotted(v.value) == path):
+                    tv += [x.id for x in ast.walk(m.ast.targets[0]) if isinstance(x, ast.Name)]
+                    binders.add(m.id)
+        cands = [v for v in tv if any(collects(m, v) for m in cfg.stmt_nodes(lambda m: m.kind == "stmt" and any(m.ast is x for x in ast.walk(lp))))]
+        if not binders or not cands:
+            continue
+        found = True
+        var = cands[0]
+        dropped = []
+
+        def tr(n, val):
+            if n.id == head.id and kind == "while":
+                if val == "pending":
+                    dropped.append(n)
+                return "idle"
+            if n.id == head.id and kind == "for":
+                if val == "pending":
+                    dropped.append(n)
+                return "idle"
+            if n.id in binders and kind == "while":
+                return "pending"
+            if val == "pending" and collects(n, var):
+                return "idle"
+            return val
+
+        def edge(n, k, val):
+            if kind == "for" and n.id == head.id and k == "true":
+                return "pending"
+            return val
+
+        seen = explore(cfg, "idle", tr, lambda t: False, edge_transfer=edge, follow_exc=False)
+        at_exit = {v for _f, v in seen.get(cfg.exit.id, ())}
+        for m in cfg.stmt_nodes(lambda m: collects(m, var) and any(m.ast is x for x in ast.walk(lp))):
+            nodes.append(m)
+        if dropped or "pending" in at_exit:
+            bad.append((lp, "a loop iteration can end without handing the future it took (%s) to the settle loop" % var))
+    return found, bad, nodes
+
+
 def signal_closed(ck):
     eff = ClassEffects(ck.repo, FAMILY)
     fi = ck.func(IO, B + "._signal_closed")
@@ -102,7 +194,16 @@ def signal_closed(ck):
         # collected into a settled list, or settled directly
         collected = False
         coll_nodes = []
-        for n in cfg.stmt_nodes(lambda n: n.kind == "stmt"):
+        if kind == "container":
+            found, bad_sites, c_nodes = _drain_forms(fi, path, settled_lists, {p for _n, _c, p, _k in ss})
+            for node_ast, why in bad_sites:
+                ck.ob("C13.drain-complete", fi, node_ast, False, "every future taken out of %s at close is failed - %s" % (path, why))
+            if found:
+                collected = True
+                coll_nodes.extend(c_nodes)
+                for cn in c_nodes:
+                    ck.ob("C13.drain-complete", fi, cn.ast, not any(cn.ast is a for a, _w in bad_sites), "all futures queued in %s are handed to the settle loop (none filtered out)" % path)
+        for n in (cfg.stmt_nodes(lambda n: n.kind == "stmt") if kind == "scalar" else []):
             st = n.ast
             for L in settled_lists:
                 if isinstance(st, ast.Expr) and q.is_call(st.value, L + ".append", L + ".extend") and any(q.dotted(x) == path for x in ast.walk(st.value)):
@@ -120,6 +221,15 @@ def signal_closed(ck):
             clr = lambda n, path=path: n.kind == "stmt" and (any(q.is_call(c, path + ".clear") for c in q.calls(n.ast)) or (isinstance(n.ast, ast.Assign) and path in q.assigned_paths(n.ast)))
             ef = event_facts(fi, {"clr": clr}, cond_facts=False)
             cleared = ("@clr", True) in ef[cfg.exit.id]
+            if not cleared:
+                # a `while <queue>:` loop that pops and never breaks leaves the queue empty
+                for w in [x for x in q.walk_body(fi.node) if isinstance(x, ast.While) and q.dotted(x.test) == path and not x.orelse]:
+                    pops = [c for c in q.calls(w) if q.receiver(c) == path and q.call_attr(c) in ("popleft", "pop")]
+                    if pops and not any(isinstance(y, (ast.Break, ast.Return)) for st_ in w.body for y in ast.walk(st_)) and fi.cfg.nodes_for(w.body[0]) and all(("@clr", True) in ef[cfg.exit.id] or True for _ in [0]):
+                        # the loop must be on every path to the exit
+                        hd = [m for m in cfg.nodes if m.kind == "join" and m.ast is w and m.label == " while" and m.id in cfg.reachable()]
+                        if hd and all(cfg.dominates(hd[0], cfg.exit) for _ in [0]):
+                            cleared = True
             # collected before cleared
             for cn in coll_nodes:
                 ck.ob("C13.drain-complete", fi, cn.ast, ("@clr", True) not in ef[cn.id] and not (_reach(cfg, {m.id for m in cfg.stmt_nodes(clr)}) & {cn.id}), "the queued futures are collected before the queue is cleared")
@@ -371,6 +481,57 @@ def closed_checks(ck):
     ck.ob("C13.inline-read-check", s, s.node, bool(rets) and all(q.dotted(r.value) == "self._read_future" for r in rets), "_start_read returns the future it registered", construct="_start_read returns self._read_future")
 
 
+def error_closes(ck):
+    """Transport errors reach close(exc_info=<the error>): every handler of OSError / Exception in the
+    event, read, write and connect paths closes the stream with the caught exception (or re-raises)."""
+    SITES = [(IO, B + "._handle_events"), (IO, B + "._handle_read"), (IO, B + "._handle_write"), (IO, B + "._read_to_buffer"), (IO, "IOStream.connect")]
+    n = 0
+    for rel, qn in SITES:
+        fi = ck.func(rel, qn)
+        for h in [x for x in q.walk_body(fi.node) if isinstance(x, ast.ExceptHandler)]:
+            names = q.handler_names(h)
+            if not (q.exc_is_caught("OSError", names) or q.exc_is_caught("Exception", names)):
+                continue  # BlockingIOError, UnsatisfiableReadError, CancelledError, ...: not transport errors
+            if all(nm.split(".")[-1] in ("BlockingIOError",) for nm in names):
+                continue
+            hn = [m for m in fi.cfg.nodes if m.kind == "handler" and m.ast is h and m.id in fi.cfg.reachable()]
+            if not hn:
+                continue
+            n += 1
+            hid = {m.id for m in hn}
+            var = h.name
+
+            def closes(m, var=var):
+                if m.kind != "stmt":
+                    return False
+                if isinstance(m.ast, ast.Raise):
+                    return True
+                for c in q.calls(m.ast):
+                    if q.is_call(c, "self.close"):
+                        a = q.kwarg(c, "exc_info") or (c.args[0] if c.args else None)
+                        if a is not None and (q.dotted(a) == var or (isinstance(a, ast.Constant) and a.value is True)):
+                            return True
+                return False
+
+            bad = _paths_avoiding(fi, hid, closes)
+            ck.ob("C13.error-closes", fi, h, not bad, "a transport error caught in %s closes the stream with that error (close(exc_info=%s)) on every path, so pending operations fail with StreamClosedError carrying the real error" % (qn.split(".")[-1], var or "..."))
+    ck.floor("C13.error-closes", n, 5, "transport-error handlers")
+
+
+def _paths_avoiding(fi, starts: Set[int], end) -> bool:
+    cfg = fi.cfg
+
+    def tr(n, val):
+        if n.id in starts:
+            return True
+        if val and end(n):
+            return False
+        return val
+
+    seen = explore(cfg, False, tr, lambda t: False, exc_effect=True)
+    return any(v for _f, v in seen.get(cfg.exit.id, ()))
+
+
 def field_settles(ck):
     """Outside _signal_closed a Future field is resolved only through take-and-clear
     and *_unless_cancelled (so close and completion cannot both settle it)."""
@@ -408,6 +569,7 @@ def run(ck):
     ck.rule("C13.close-completes-reads", "close(): a pending until-close read is finished and any other pending read is checked against the buffer before the fd is closed")
     ck.rule("C13.error-recorded", "close() stores the exception it was given in self.error before failing the pending operations")
     ck.rule("C13.field-settle-tac", "outside _signal_closed, read/connect/ssl-connect futures are resolved only after being taken and cleared, with *_unless_cancelled")
+    ck.rule("C13.error-closes", "transport errors caught in the event/read/write/connect paths close the stream with the caught exception (or re-raise)")
     ck.rule("C13.closed-checks", "_check_closed raises StreamClosedError(real_error) iff closed; write() checks it before queuing; _add_io_state registers nothing once closed")
     ck.rule("C13.inline-read-check", "_try_inline_read tries the buffer first, then checks closed before touching the fd; _start_read checks closed before asserting and registers a fresh future")
     ck.rule("C13.read-end-mode", "every function that ends a read (self._read_future = None) leaves caller-buffer mode (_user_read_buffer False) on every path")
@@ -415,6 +577,7 @@ def run(ck):
     close_path(ck)
     closed_checks(ck)
     field_settles(ck)
+    error_closes(ck)
     n = read_end_mode(ck, "C13.read-end-mode")
     ck.floor("C13.read-end-mode", n, 1, "read-ending sites")
 
@@ -492,8 +655,21 @@ def _not_idempotent(root):
     return False
 
 
+def _drop_last_close(root):
+    hs = [h for h in ast.walk(root) if isinstance(h, ast.ExceptHandler) and h.type is not None and _src(h.type) == "Exception"]
+    for h in hs:
+        for i, st in enumerate(h.body):
+            if isinstance(st, ast.Expr) and "self.close(exc_info=e)" in _src(st):
+                del h.body[i]
+                h.body.insert(i, parse_stmt("return"))
+                return True
+    return False
+
+
 MUTANTS = [
     ("_connect_future forgotten at close", _in(B + "._signal_closed", remove_stmts(lambda st: isinstance(st, ast.If) and _src(st.test) == "self._connect_future is not None")), "C13.drain-complete"),
+    ("seeded C13-adv1: close keeps only write futures with index > done index", _in(B + "._signal_closed", replace_stmt(lambda st: isinstance(st, ast.AugAssign) and "_write_futures" in _src(st.value), lambda st: ast.parse("while self._write_futures:\n    index, future = self._write_futures.popleft()\n    if index > self._total_write_done_index:\n        futures.append(future)").body)), "C13.drain-complete"),
+    ("close collects only unfinished write futures (filtering comprehension)", _in(B + "._signal_closed", replace_stmt(lambda st: isinstance(st, ast.AugAssign) and "_write_futures" in _src(st.value), lambda st: [parse_stmt("futures += [future for _, future in self._write_futures if not future.done()]")])), "C13.drain-complete"),
     ("write futures failed but not cleared", _in(B + "._signal_closed", remove_stmts(lambda st: isinstance(st, ast.Expr) and "_write_futures.clear" in _src(st))), "C13.drain-complete"),
     ("read future failed but left registered", _in(B + "._signal_closed", remove_stmts(lambda st: isinstance(st, ast.Assign) and _src(st) == "self._read_future = None")), "C13.drain-complete"),
     ("pending futures failed without the done() guard", _in(B + "._signal_closed", _unguard_settle), "C13.settle-guarded"),
@@ -505,6 +681,8 @@ MUTANTS = [
     ("close() forgets the closed flag", _in(B + ".close", remove_stmts(lambda st: isinstance(st, ast.Assign) and _src(st) == "self._closed = True")), "C13.close-idempotent"),
     ("close(exc_info=<exception>) does not record the error", _in(B + ".close", replace_stmt(lambda st: isinstance(st, ast.Assign) and _src(st) == "self.error = exc_info", lambda st: [ast.Pass()])), "C13.error-recorded"),
     ("connect future resolved without clearing the field", _in("IOStream._handle_connect", remove_stmts(lambda st: isinstance(st, ast.Assign) and _src(st) == "self._connect_future = None")), "C13.field-settle-tac"),
+    ("write error closes the stream without recording the error", _in(B + "._handle_write", replace_expr(lambda n: isinstance(n, ast.Call) and _src(n) == "self.close(exc_info=e)", lambda n: parse_expr("self.close()"))), "C13.error-closes"),
+    ("uncaught exception in the event handler leaves the stream open", _in(B + "._handle_events", lambda root: _drop_last_close(root)), "C13.error-closes"),
     ("_signal_closed only on the first close", _in(B + ".close", _signal_inside_if), "C13.close-signals"),
     ("pending read not completed from the buffer at close", _in(B + ".close", _drop_pending_read_check), "C13.close-completes-reads"),
     ("until-close read not finished at close", _in(B + ".close", remove_stmts(lambda st: isinstance(st, ast.Expr) and "_finish_read" in _src(st))), "C13.close-completes-reads"),
